@@ -33,7 +33,7 @@ EXPLANATION = ("literal obligations: for every qualifying enzyme the derived mod
 
 def obligations(ctx):
     from props._shared import typing_state_census
-    return list(ctx.verify(FUNCTIONS) + literal(ctx) + lemmas(ctx)) + [typing_state_census(ctx, 'C12')]
+    return list(ctx.verify(FUNCTIONS) + ctx.part(literal) + ctx.part(lemmas)) + ctx.part(lambda c_: [typing_state_census(c_, 'C12')], 'typing-state census')
 
 
 def rc(x):
